@@ -601,6 +601,34 @@ func (w *lkWalker) sections(body []ast.Stmt) []lkSect {
 				continue
 			}
 		}
+		// `if c { …; X.Unlock(); return … }` while the lock is held without a deferred unlock:
+		// the early exit releases the lock itself; the fall-through path still holds it
+		if is, ok := s.(*ast.IfStmt); ok && mode != "MNone" && !deferred && is.Else == nil && len(is.Body.List) >= 2 {
+			n := len(is.Body.List)
+			ret, isRet := is.Body.List[n-1].(*ast.ReturnStmt)
+			if es, ok := is.Body.List[n-2].(*ast.ExprStmt); ok && isRet {
+				if c, ok := es.X.(*ast.CallExpr); ok {
+					if op, ok := w.lockCall(c); ok {
+						want := map[string]string{"Unlock": "MW", "RUnlock": "MR"}[op]
+						if mode != want {
+							w.fail(es, op+" does not match the lock held")
+						}
+						w.stmt(is.Init)
+						w.read(is.Cond)
+						w.block(is.Body.List[:n-2])
+						held := w.accs
+						nclos := len(w.closures)
+						w.accs = nil
+						w.readAll(ret.Results)
+						if len(w.accs) > 0 || len(w.closures) != nclos {
+							w.fail(ret, "shared access in a return statement after the unlock")
+						}
+						w.accs = held
+						continue
+					}
+				}
+			}
+		}
 		w.stmt(s)
 	}
 	if mode != "MNone" && !deferred {
